@@ -36,6 +36,27 @@ class CallbackFault(Exception):
     """F6: raised by a harness callback."""
 
 
+class SimAsyncFault(BaseException):
+    """F12: an asynchronous exception arriving between two lines of library code."""
+
+
+# what RAISE can raise: the property says "through an exception", so the class must not matter
+RAISE_KINDS = {
+    'exc': SimFault,
+    'value': ValueError,
+    'key': KeyError,
+    'timeouterr': TimeoutError,
+    'mem': MemoryError,
+    'base': SimBaseFault,
+    'genexit': GeneratorExit,
+    'kbd': KeyboardInterrupt,
+    'sysexit': SystemExit,
+    'cancelled': asyncio.CancelledError,
+}
+EXC_KINDS = ('exc', 'value', 'key', 'timeouterr', 'mem')
+BASE_LABELS = ('base', 'genexit', 'kbd', 'sysexit', 'cancelled', 'SimBaseFault', 'SimAsyncFault', 'CancelledError')
+
+
 def _mark_expected(exc: BaseException) -> None:
     try:
         exc._sim_expected = True  # type: ignore[attr-defined]
@@ -44,7 +65,7 @@ def _mark_expected(exc: BaseException) -> None:
 
 
 def is_expected(exc: BaseException) -> bool:
-    if isinstance(exc, (SimFault, SimBaseFault, CallbackFault, asyncio.CancelledError)):
+    if isinstance(exc, (SimFault, SimBaseFault, SimAsyncFault, CallbackFault, asyncio.CancelledError)):
         return True
     return bool(getattr(exc, '_sim_expected', False))
 
@@ -64,7 +85,10 @@ def exc_text(exc: BaseException) -> str:
 
 def exc_label(exc: BaseException) -> str:
     """A stable label for logs (class names of errors surfaced by JAX are not stable)."""
-    if isinstance(exc, (SimFault, SimBaseFault, CallbackFault, asyncio.CancelledError, TimeoutError, Abort)):
+    label = getattr(exc, '_sim_label', None)
+    if isinstance(label, str):
+        return label
+    if isinstance(exc, (SimFault, SimBaseFault, SimAsyncFault, CallbackFault, asyncio.CancelledError, TimeoutError, Abort)):
         return type(exc).__name__
     if getattr(exc, '_sim_expected', False):
         return 'ApplyError'
@@ -185,6 +209,7 @@ class Actor:
         self.depth_now = 0  # open blocks in the currently executing frame chain
         self.open_uids: list[int] = []
         self.in_callback = False
+        self.prebuilt: dict[int, tuple] = {}
 
 
 class Frame:
@@ -225,6 +250,10 @@ class Run:
         self.handles: list[Handle] = []
         self.fjit = None
         self.table: dict[str, list] = {}
+        self.shared_options: dict | None = None
+        self.async_at = set(spec.get('async_at') or []) if self.fine else set()
+        self.async_pending = False
+        self.line_events = 0
 
         self.probes: Counter = Counter()
         self.faults: Counter = Counter()
@@ -272,6 +301,8 @@ class Run:
             self.sched.abort = True
 
     def harness_fail(self, exc: BaseException) -> None:
+        if self.violation is not None:
+            return  # the run already has its verdict; what breaks while it unwinds does not count
         if self.harness_error is None:
             self.harness_error = ''.join(traceback.format_exception(type(exc), exc, exc.__traceback__))[-4000:]
         self.stop()
@@ -374,6 +405,17 @@ class Run:
             self.probe('diag:line_skipped_under_jax_trace')
             return
         self.probe(f'line:{code.co_name}')
+        if self.async_at:
+            self.line_events += 1
+            if self.line_events in self.async_at:
+                self.async_pending = True
+            if self.async_pending and _async_safe_here():
+                # F12: never inside __enter__/__exit__ (or anything they call): an asynchronous
+                # exception there defeats every context manager, so injecting it would be a false alarm
+                self.async_pending = False
+                self.faults['async_exc'] += 1
+                self.log(fr, 'fault', {'kind': 'async_exc', 'in': code.co_name, 'line': line - code.co_firstlineno, 'depth': len(self.stacks[fr.ctx]) - 1})
+                raise SimAsyncFault(f'{code.co_name}+{line - code.co_firstlineno}')
         before = self.sched.switches
         try:
             self.thread_point(fr, 'line')
@@ -392,7 +434,12 @@ class Run:
             elif name == 'throw':
                 kw['solver_throw'] = bool(val)
             elif name == 'options':
-                kw['solver_options'] = palette.make_options(val, uid)
+                if val == 'S':
+                    if self.shared_options is None:
+                        self.shared_options = palette.make_options('P', 0)
+                    kw['solver_options'] = self.shared_options
+                else:
+                    kw['solver_options'] = palette.make_options(val, uid)
             elif name == 'callback':
                 if val == 'D':
                     from furax._base.config import default_solver_callback
@@ -473,6 +520,12 @@ class Run:
             self.do_raise(fr, stmt, depth)
         elif kind == 'BADCONFIG':
             self.do_badconfig(fr)
+        elif kind == 'CONSTRUCT':
+            self.do_construct(fr, stmt)
+        elif kind == 'PREBUILD':
+            self.do_prebuild(fr, stmt)
+        elif kind == 'ENTER':
+            await self.do_enter(fr, stmt, depth)
         elif kind == 'SPAWN':
             self.do_spawn(fr, stmt)
             await self.yp(fr, 'post-spawn')
@@ -492,27 +545,45 @@ class Run:
             raise HarnessError(f'unknown statement {kind}')
 
     # -- BLOCK ------------------------------------------------------------------------------
-    async def do_block(self, fr: Frame, stmt: list, depth: int) -> None:
+    async def do_block(self, fr: Frame, stmt: list, depth: int, pre: tuple | None = None) -> None:
+        """`with Config(**kw) as c: body` -- or, for ENTER, `with <prebuilt Config object> as c: body`."""
         _, uid, kwspec, body = stmt
         Config = self.Config
-        kw = self.build_kw(uid, kwspec)
         stack = self.stacks[fr.ctx]
         before = stack[-1]
-        new = merge(before, model.delta_for_block(uid, kwspec))
+        delta = model.delta_for_block(uid, kwspec)
+        if pre is None:
+            kw = self.build_kw(uid, kwspec)
+            alts = [merge(before, delta)]
+        else:
+            # a Config object built earlier: whether its settings are resolved against the
+            # configuration active at construction or at entry is not something C19 states, so both
+            # are accepted (the current tree does the former); restore/isolation are demanded as ever
+            pre_obj, pre_base = pre
+            kw = {}
+            alts = [merge(pre_base, delta), merge(before, delta)]
         actor = fr.actor
         body_exc: BaseException | None = None
         entered = False
+        pushed = False
         how = 'normal'
         try:
-            with Config(**kw) as c:
+            with (Config(**kw) if pre is None else pre_obj) as c:
                 entered = True
+                c_obs = palette.observe(c)
+                new = next((a for a in alts if a == c_obs), alts[-1])
                 stack.append(new)
-                self.ref.enter(fr.ctx, uid, kwspec)
+                self.ref.enter(fr.ctx, uid, kwspec, new)
                 actor.open_uids.append(uid)
+                pushed = True
                 try:
-                    c_obs = palette.observe(c)
                     inst_obs = self.quiet_read(fr)
-                    self.log(fr, 'enter', {'uid': uid, 'kw': kwspec, 'c': c_obs, 'inst': inst_obs})
+                    ev = {'uid': uid, 'kw': kwspec, 'c': c_obs, 'inst': inst_obs}
+                    if pre is not None:
+                        ev['pre'] = True
+                        if alts[0] != alts[1]:
+                            self.probe('prebuilt_entered_under_other_config')
+                    self.log(fr, 'enter', ev)
                     if len(stack) - 1 >= 3:
                         self.probe('depth_ge_3')
                     self.expect(fr, 'S', c_obs, new, {'what': 'as-target', 'uid': uid})
@@ -532,7 +603,7 @@ class Run:
         except Abort:
             raise
         except BaseException as exc:
-            if exc is not body_exc:
+            if exc is not body_exc and not (isinstance(exc, SimAsyncFault) and not entered):
                 # raised by Config(...), __enter__ or __exit__ themselves
                 if not self.aborting:
                     where = 'exit' if entered else 'construct/enter'
@@ -543,18 +614,49 @@ class Run:
         finally:
             if not self.aborting:
                 obs = self.quiet_read(fr)
-                self.log(fr, 'exit', {'uid': uid, 'how': how, 'obs': obs})
-                if how != 'normal':
-                    self.probe('exit_by_exception')
-                    if how in ('SimBaseFault', 'CancelledError'):
-                        self.probe('exit_by_base_exception')
-                self.expect(fr, 'R', obs, before, {'how': how, 'uid': uid})
+                if not entered:
+                    # Config(...) itself was interrupted (F12): nothing was entered, nothing may change
+                    self.log(fr, 'noenter', {'uid': uid, 'how': how, 'obs': obs})
+                    self.expect(fr, 'S', obs, before, {'what': 'an interrupted Config(...) changed the active configuration', 'uid': uid})
+                else:
+                    self.log(fr, 'exit', {'uid': uid, 'how': how, 'obs': obs})
+                    if how != 'normal':
+                        self.probe('exit_by_exception')
+                        self.probe('exit_by:' + how)
+                        if how in BASE_LABELS:
+                            self.probe('exit_by_base_exception')
+                    self.expect(fr, 'R', obs, before, {'how': how, 'uid': uid})
+
+    def do_prebuild(self, fr: Frame, stmt: list) -> None:
+        _, uid, kwspec = stmt
+        kw = self.build_kw(uid, kwspec)
+        try:
+            obj = self.Config(**kw)
+        except (Abort, SimAsyncFault):
+            raise
+        except BaseException as exc:  # noqa: BLE001
+            self.log(fr, 'error', {'clause': 'N', 'site': 'construct', 'why': exc_text(exc)})
+            self.violate(fr, 'N', {'site': 'construct', 'why': exc_text(exc)})
+            return
+        obs = self.quiet_read(fr)
+        self.log(fr, 'prebuild', {'uid': uid, 'kw': kwspec, 'obs': obs})
+        self.expect(fr, 'S', obs, self.top(fr), {'what': 'a Config(...) that was not entered yet changed the active configuration'})
+        fr.actor.prebuilt[uid] = (obj, dict(self.top(fr)), kwspec)
+
+    async def do_enter(self, fr: Frame, stmt: list, depth: int) -> None:
+        _, uid, body = stmt
+        rec = fr.actor.prebuilt.pop(uid, None)
+        if rec is None:
+            self.log(fr, 'skip', {'stmt': 'ENTER'})
+            return
+        obj, base, kwspec = rec
+        await self.do_block(fr, ['BLOCK', uid, kwspec, body], depth, pre=(obj, base))
 
     # -- READ -------------------------------------------------------------------------------
     def do_read(self, fr: Frame, why: str = 'stmt') -> None:
         try:
             state = self.Config.instance()  # pre-emptable in fine mode
-        except Abort:
+        except (Abort, SimAsyncFault):
             raise
         except BaseException as exc:  # noqa: BLE001
             self.log(fr, 'error', {'clause': 'N', 'site': 'instance', 'why': exc_text(exc)})
@@ -605,7 +707,7 @@ class Run:
                 ops, fresh, exact = ['nested'] + list(src.ops), 1, False
             else:
                 raise HarnessError(f'unknown shape {shape}')
-        except (Abort, HarnessError):
+        except (Abort, HarnessError, SimAsyncFault):
             raise
         except BaseException as exc:  # noqa: BLE001
             self.log(fr, 'error', {'clause': 'N', 'site': 'create', 'why': exc_text(exc)})
@@ -727,7 +829,7 @@ class Run:
             tls.sink, tls.seam, tls.stdout_fault = prev
         if self.aborting:
             raise Abort()
-        fault_fired = bool((seam and seam['fired']) or (so and so['fired']))
+        fault_fired = bool((seam and seam['fired']) or (so and so['fired']) or isinstance(raised, SimAsyncFault))
         if seam and seam['fired']:
             self.faults['seam'] += 1
         if so and so['fired']:
@@ -850,18 +952,20 @@ class Run:
         kind = stmt[1]
         d = len(self.stacks[fr.ctx]) - 1
         self.log(fr, 'fault', {'kind': 'raise_' + kind, 'depth': d})
-        self.faults['raise_' + kind] += 1
+        self.faults['raise_exc' if kind in EXC_KINDS else 'raise_base'] += 1
+        self.faults['raise:' + kind] += 1
         if d >= 2:
             self.probe('raise_at_depth_ge_2')
-        if kind == 'exc':
-            raise SimFault(f'a{fr.actor.aid}')
-        raise SimBaseFault(f'a{fr.actor.aid}')
+        exc = RAISE_KINDS[kind](f'a{fr.actor.aid}')
+        _mark_expected(exc)
+        exc._sim_label = kind  # type: ignore[attr-defined]
+        raise exc
 
     def do_badconfig(self, fr: Frame) -> None:
         raised = None
         try:
             self.Config(no_such_setting=1)
-        except Abort:
+        except (Abort, SimAsyncFault):
             raise
         except BaseException as exc:  # noqa: BLE001
             raised = type(exc).__name__
@@ -873,6 +977,22 @@ class Run:
         if raised != 'TypeError':
             self.violate(fr, 'N', {'site': 'badconfig', 'raised': raised})
         self.expect(fr, 'N', obs, self.top(fr), {'what': 'a failed Config(...) changed the active configuration'})
+
+    def do_construct(self, fr: Frame, stmt: list) -> None:
+        _, uid, kwspec = stmt
+        kw = self.build_kw(uid, kwspec)
+        try:
+            self.Config(**kw)
+        except (Abort, SimAsyncFault):
+            raise
+        except BaseException as exc:  # noqa: BLE001
+            self.log(fr, 'error', {'clause': 'N', 'site': 'construct', 'why': exc_text(exc)})
+            self.violate(fr, 'N', {'site': 'construct', 'why': exc_text(exc)})
+        obs = self.quiet_read(fr)
+        self.log(fr, 'construct', {'uid': uid, 'kw': kwspec, 'obs': obs})
+        if len(self.stacks[fr.ctx]) > 1:
+            self.probe('construct_only_inside_block')
+        self.expect(fr, 'S', obs, self.top(fr), {'what': 'a Config(...) that was never entered changed the active configuration'})
 
     # -- CTXRUN -----------------------------------------------------------------------------
     def do_ctxrun(self, fr: Frame, stmt: list, depth: int) -> None:
@@ -981,7 +1101,9 @@ class Run:
         try:
             async with asyncio.timeout(d):
                 await self.exec_body(fr, body, depth)
-        except TimeoutError:
+        except TimeoutError as exc:
+            if getattr(exc, '_sim_label', None) is not None:
+                raise  # a program's own RAISE of TimeoutError, not this statement's deadline
             self.faults['timeout'] += 1
             self.log(fr, 'fault', {'kind': 'timeout', 'depth': d0})
             if d0 >= 1:
@@ -1015,17 +1137,34 @@ class Run:
         if len(self.stacks[fr.ctx]) > 1:
             self.probe('to_thread_snapshot_inside_block')
 
+        box: dict = {}
+
         def job():
             tls.frame = sub
             tls.quiet = 0
             try:
                 drive(self.sync_ctx_body(sub, body, depth))
+            except BaseException as exc:  # noqa: BLE001
+                box['exc'] = exc
+                raise
             finally:
                 tls.frame = None
 
         tls.frame = None
         try:
             await asyncio.to_thread(job)
+        except BaseException as exc:  # noqa: BLE001
+            # asyncio re-creates TimeoutError / CancelledError instances when it copies a result from
+            # the executor future: carry the harness marks over to the new instance
+            orig = box.get('exc')
+            if orig is not None and exc is not orig and type(exc) is type(orig):
+                for attr in ('_sim_expected', '_sim_label'):
+                    if hasattr(orig, attr):
+                        try:
+                            setattr(exc, attr, getattr(orig, attr))
+                        except Exception:  # pragma: no cover
+                            pass
+            raise
         finally:
             tls.frame = fr
             if not self.aborting:
@@ -1078,7 +1217,10 @@ class Run:
         except Abort:
             pass
         except BaseException as exc:  # noqa: BLE001
-            self.harness_fail(exc)
+            # while a stopped run unwinds, a broken implementation may raise from __exit__; only the
+            # first verdict counts
+            if not self.aborting:
+                self.harness_fail(exc)
         finally:
             tls.actor = None
             tls.frame = None
@@ -1096,7 +1238,8 @@ class Run:
         except asyncio.CancelledError:
             raise
         except BaseException as exc:  # noqa: BLE001
-            self.harness_fail(exc)
+            if not self.aborting:
+                self.harness_fail(exc)
 
     # ------------------------------------------------------------------ worlds
     def execute(self) -> None:
@@ -1218,6 +1361,15 @@ def _inside_compiled_execution() -> bool:
             return True
         f = f.f_back
     return False
+
+
+def _async_safe_here() -> bool:
+    f = sys._getframe(1)
+    while f is not None:
+        if f.f_code.co_name in ('__enter__', '__exit__', '__aenter__', '__aexit__'):
+            return False
+        f = f.f_back
+    return True
 
 
 def _trace_state_clean() -> bool:
